@@ -66,7 +66,7 @@ func typeTestsOf(fn *ssa.Function) []typeTest {
 				if cf == nil {
 					continue
 				}
-				if cf.Name() == "toDecimal" && cf.Signature.Results().Len() == 2 {
+				if isRole(cf, "toDecimal") {
 					out = append(out, typeTest{extractOf(x, 1), x, "toDecimal", x.Call.Args[0]})
 				}
 			}
@@ -90,7 +90,7 @@ func hasTypeTest(b *ssa.BasicBlock) bool {
 				return true
 			}
 		case *ssa.Call:
-			if cf := calleeOf(&x.Call); cf != nil && (cf.Name() == "toDecimal" || cf.Name() == "toInt" || cf.Name() == "toFloat" || cf.Name() == "toFloatPair") {
+			if cf := calleeOf(&x.Call); cf != nil && (isRole(cf, "toDecimal") || isRole(cf, "toInt") || isRole(cf, "toFloat") || isRole(cf, "toFloatPair")) {
 				return true
 			}
 		}
@@ -224,9 +224,9 @@ func allowedMismatchError(fn, errType string) bool {
 }
 
 func ruleEToInt(p *Program, r *Reporter) {
-	toInt := p.Func(p.Eval, "", "toInt")
+	toInt := numericRoles(p).toInt
 	if toInt == nil {
-		r.Unknown(token.NoPos, "toInt", "toInt not found")
+		r.Unknown(token.NoPos, "toInt", "integer coercion helper func(any) (int, bool, ...) not found: "+numericRoles(p).why)
 		return
 	}
 	for _, fn := range p.ReachFuncs(p.Eval) {
@@ -338,9 +338,9 @@ var countHelpers = map[string]bool{
 }
 
 func ruleENegCount(p *Program, r *Reporter) {
-	toInt := p.Func(p.Eval, "", "toInt")
+	toInt := numericRoles(p).toInt
 	if toInt == nil {
-		r.Unknown(token.NoPos, "toInt", "toInt not found")
+		r.Unknown(token.NoPos, "toInt", "integer coercion helper func(any) (int, bool, ...) not found: "+numericRoles(p).why)
 		return
 	}
 	for _, fn := range p.ReachFuncs(p.Eval) {
@@ -501,7 +501,7 @@ func underFailedToDecimal(b *ssa.BasicBlock, v ssa.Value) bool {
 		if !ok {
 			continue
 		}
-		if cf := calleeOf(&call.Call); cf != nil && cf.Name() == "toDecimal" && call.Call.Args[0] == v {
+		if cf := calleeOf(&call.Call); cf != nil && isRole(cf, "toDecimal") && call.Call.Args[0] == v {
 			return true
 		}
 	}
